@@ -70,6 +70,13 @@ fn exp_map(v: &Value) -> BTreeMap<u64, Vec<(u64, i64)>> {
             let lst = l.as_array().unwrap().iter().map(|p| (ji(&p[0]) as u64, ji(&p[1]))).collect();
             m.insert(k.parse::<u64>().unwrap(), lst);
         }
+    } else if let Value::Array(a) = v {
+        // TLC writes a function whose domain is 1..n as an array: entry i belongs to query i + 1 (query ids that
+        // start at 1: the instance with overlapping query / track ids)
+        for (i, l) in a.iter().enumerate() {
+            let lst = l.as_array().unwrap().iter().map(|p| (ji(&p[0]) as u64, ji(&p[1]))).collect();
+            m.insert(i as u64 + 1, lst);
+        }
     }
     m
 }
